@@ -370,21 +370,23 @@ func init() {
 				// many short rounds on fresh allocators: half of the goroutines ask for a few bytes, the other half for
 				// sizes that more than double each time (stale waiters at chunk boundaries)
 				R, G := int(vu(op[1])), int(vu(op[2]))
-				r, hung := vAllocGuard(120*time.Second, func() string {
-					for i := 0; i < R; i++ {
+				for i := 0; i < R; i++ {
+					// each round has its own hang budget: the number of rounds must not turn slowness into a "hang"
+					r, hung := vAllocGuard(60*time.Second, func() string {
 						fa := NewAllocator(64, "verif")
 						res := vAllocStress(fa, G, 14, int64(2*i+1), 32)
 						fa.Release()
-						if res != fmt.Sprintf("ok %d", G*14) {
-							return fmt.Sprintf("round %d: %s", i, res)
-						}
+						return res
+					})
+					if hung {
+						dead = true
+						return fmt.Sprintf("round %d: hang", i)
 					}
-					return fmt.Sprintf("ok %d", R)
-				})
-				if hung {
-					dead = true
+					if r != fmt.Sprintf("ok %d", G*14) {
+						return fmt.Sprintf("round %d: %s", i, r)
+					}
 				}
-				return r
+				return fmt.Sprintf("ok %d", R)
 			}
 			return "badop"
 		}
